@@ -153,3 +153,4 @@ def run(ctx):
                  'a weakened verdict lets damaged fragments through the filter')
     c12.rule_validation_pipeline(ctx, P, r)
     r.require_min(8)
+    ctx.borrow('c12', ['R12a'], 'the forced check relies on the exact index test of the metadata verifier')
